@@ -3,6 +3,7 @@ C07 - a re-exported object is documented once, where exported, and stays reachab
   R07.1 effect completeness and order in Documentable.reparent
   R07.2 decision guard in ModuleVistor._handleReExport
   R07.3 stale-name consumers re-resolve through find_object
+  R07.5 the name-resolution functions keep no result across a move (or the mover drops the kept results of every scope)
   R07.4 a name -> object map handed to the colorizer with an expression is keyed by the spelling of that expression
 Does not decide: that every consumer in every analysis order reaches the moved object (schedules x programs).
 """
@@ -280,6 +281,56 @@ def run(repo: Repo, chk: Check, thorough: bool = False) -> None:
     if n74 < 1:
         raise AnalysisError('R07.4: no colorizer call with a refmap found (1 confirmed: templatewriter.pages.format_class_signature)')
     chk.require('R07.4', 1)
+
+    # ------------------------------------------------------------------ R07.5 name expansion reads the CURRENT bindings
+    # a move changes what names mean for every scope of the system (the consumers of the old location, not only the two modules involved).  The resolution
+    # functions are pure readers of contents / the import map today; a result kept in an attribute of the scope survives the move unless the mover drops
+    # the kept results of ALL scopes (a loop over system.allobjects, or one system-wide table, cleared in reparent)
+    RES = ('expandName', 'resolveName', '_localNameToFullName', 'isNameDefined', '_resolveName')
+    mm_ = repo.mod('pydoctor.model')
+    rp_ = repo.func(f'{DOC}.reparent')
+    n75 = 0
+    for f in sorted(repo.funcs.values(), key=lambda f: f.qn):
+        if f.mod is not mm_ or f.name not in RES or f.cls is None:
+            continue
+        n75 += 1
+        kept: List[Tuple[str, ast.AST]] = []
+        for n in f.walk():
+            tg: List[ast.AST] = []
+            if isinstance(n, ast.Assign):
+                tg = list(n.targets)
+            elif isinstance(n, (ast.AugAssign, ast.AnnAssign)):
+                tg = [n.target]
+            elif isinstance(n, ast.Call) and isinstance(n.func, ast.Attribute) and n.func.attr in ('setdefault', 'update', 'add', 'append', '__setitem__'):
+                tg = [n.func.value]
+            for t in tg:
+                base = t
+                while isinstance(base, ast.Subscript):
+                    base = base.value
+                if isinstance(base, ast.Attribute) and (dotted(base.value) == 'self' or (dotted(base.value) or '').startswith('self.')):
+                    kept.append((base.attr, n))
+        if not kept:
+            chk.ob('R07.5', f'{f.qn} :: reads the current bindings, keeps no result', True, 'no store into the scope or the system', f.loc)
+            continue
+        for attr, n in kept:
+            # invalidation by the mover: `<x>.<attr>.clear()` / `<x>.<attr> = {}` inside a loop over the objects of the system, or on the system itself
+            inval = False
+            for c in rp_.walk():
+                hit = (isinstance(c, ast.Call) and isinstance(c.func, ast.Attribute) and c.func.attr == 'clear' and isinstance(c.func.value, ast.Attribute) and c.func.value.attr == attr) or \
+                    (isinstance(c, ast.Assign) and any(isinstance(t, ast.Attribute) and t.attr == attr for t in c.targets))
+                if not hit:
+                    continue
+                owner = c.func.value.value if isinstance(c, ast.Call) else next(t.value for t in c.targets if isinstance(t, ast.Attribute) and t.attr == attr)  # type: ignore[attr-defined]
+                system_wide = 'system' in norm(owner) or any(isinstance(p_, ast.For) and 'allobjects' in norm(p_.iter) for p_ in parents(c))
+                inval = inval or system_wide
+            chk.ob('R07.5', f'{f.qn} :: a kept result (self.{attr}) is dropped for every scope when an object moves', inval,
+                   'reparent() clears it system-wide' if inval else
+                   f'`{norm(n)[:60]}` keeps expansions per scope, and reparent() does not drop them for all scopes: a consumer analysed before the re-export still gets the '
+                   'old location of the object back after the move - its annotations / bases name a place where nothing is documented any more (and the result depends on the '
+                   'order in which the modules were analysed)', repo.loc(f.mod, n))
+    if n75 < 6:
+        raise AnalysisError(f'R07.5: {n75} name-resolution functions found in model.py (8 confirmed: expandName, resolveName, 3x _localNameToFullName, 3x isNameDefined)')
+    chk.require('R07.5', 6)
 
     # ------------------------------------------------------------------ R07.2 (addition): `__all__: List[str] = [...]` is an `__all__`
     # the module-level metadata (__all__, __docformat__) is collected by findModuleLevelAssign; the statement classes that bind a plain name to a value
